@@ -190,6 +190,11 @@ func Setup(c Case) (*Result, error) {
 		h := w.NewHost(name)
 		h.Cfg.ReferrersAPI = api
 		h.Cfg.NoHeadDigest = c.NoHeadD
+		if c.I%6 == 3 {
+			// every sixth case: blob responses (HEAD and GET) carry no Docker-Content-Digest either - the header is
+			// optional, an existence probe answered 200 without it is still "the blob is there"
+			h.Cfg.BlobDigestHdr = "none"
+		}
 		h.Cfg.TagPage = c.TagPage
 		h.Cfg.TagDeleteAPI = true
 		return h
